@@ -152,6 +152,22 @@ def enum_family(run, gv, gm, alpha, wrapk, mode, total, label):
         if rc != 0:
             if side == "model":
                 raise MachineryFault("model enumeration died: " + err[-500:])
+            # the crate took the process down (abort / segfault: what undefined behaviour looks like from outside):
+            # bisect the shard for the input that does it
+            lo, hi = ranges[k // 2]
+            while hi - lo > 1:
+                mid = (lo + hi) // 2
+                r1, _, _ = vlib.sh([gv, "enum", alpha, wrapk, mode, str(lo), str(mid)], timeout=3000)
+                if r1 != 0:
+                    hi = mid
+                else:
+                    lo = mid
+            r1, _, e1 = vlib.sh([gv, "enum", alpha, wrapk, mode, str(lo), str(hi)], timeout=3000)
+            if r1 != 0:
+                s_ = wrap(wrapk, decode(ALPHABETS[alpha], lo))
+                run.violation({"kind": "impl-vs-spec", "family": label, "index": lo, "input": s_,
+                               "oracle": "the harness process died (exit status %s) while the crate scanned this input: %s" % (r1, (e1 or err)[-300:])})
+                raise TieBroken("implementation harness died during %s enumeration (input located: %r)" % (label, s_), err[-2000:])
             raise TieBroken("implementation harness died during %s enumeration" % label, err[-2000:])
         for ln in out.splitlines():
             if ln.startswith("ORACLE "):
